@@ -48,6 +48,7 @@ def lib():
 
 
 EMPTY_CTX = [False]
+FLAGTYPE = [None]  # None: python bool; "int": 1 / 0; "numpy": numpy.bool_ - how return_ctx is handed to the constructors
 SHARED = [None]  # entry 'wrapper' only: the wrapped collator object is also used by a second wrapper with other settings
 PRIOR = [0]  # > 0: the same pipeline object already collated a batch of that size before the judged call
 
@@ -99,6 +100,11 @@ def run_pipeline(entry, seq, adds, mode, return_ctx, B):
         return real(b)
 
     batch = [sample(mode, i, return_ctx) for i in range(B)]
+    if FLAGTYPE[0] == "int":
+        return_ctx = int(return_ctx)
+    elif FLAGTYPE[0] == "numpy":
+        import numpy as np
+        return_ctx = np.bool_(return_ctx)
     base_mod.default_collate = counting
     try:
         if entry == "compose":
@@ -143,9 +149,10 @@ def run_pipeline(entry, seq, adds, mode, return_ctx, B):
 def check_pipeline(entry, seq, adds, mode, return_ctx, B, p):
     import torch
     case = dict(entry=entry, seq=list(seq), adds=list(adds), mode=mode, return_ctx=return_ctx, B=B, empty_ctx=EMPTY_CTX[0], prior=PRIOR[0],
-                shared=SHARED[0])
+                shared=SHARED[0], flagtype=FLAGTYPE[0])
     tag = (f"|entry={entry}|seq={'>'.join(str(m) for m in seq)}|return_ctx={return_ctx}{'|empty_ctx' if EMPTY_CTX[0] else ''}"
-           f"{'|after_earlier_call' if PRIOR[0] else ''}{'|collator_shared:' + SHARED[0] if SHARED[0] else ''}")
+           f"{'|after_earlier_call' if PRIOR[0] else ''}{'|collator_shared:' + SHARED[0] if SHARED[0] else ''}"
+           f"{'|flag_type=' + FLAGTYPE[0] if FLAGTYPE[0] else ''}")
     exp = model(seq)
     p.evaluations += 1
     try:
@@ -352,6 +359,13 @@ def task(args):
                     for B in (1, 2, 3):
                         EMPTY_CTX[0] = False
                         check_pipeline(entry, seq, adds, mode, rc, B, p)
+                        if B == 2:
+                            for ft in ("int", "numpy"):
+                                FLAGTYPE[0] = ft
+                                try:
+                                    check_pipeline(entry, seq, adds, mode, rc, B, p)
+                                finally:
+                                    FLAGTYPE[0] = None
                         if entry == "wrapper" and B == 2:
                             for sh in ("other_first", "other_second", "own_settings"):
                                 SHARED[0] = sh
@@ -418,10 +432,12 @@ def replay(case):
         EMPTY_CTX[0] = bool(case.get("empty_ctx"))
         PRIOR[0] = int(case.get("prior") or 0)
         SHARED[0] = case.get("shared")
+        FLAGTYPE[0] = case.get("flagtype")
         try:
             check_pipeline(case["entry"], tuple(case["seq"]), tuple(case["adds"]), case["mode"], case["return_ctx"], case["B"], p)
         finally:
             EMPTY_CTX[0] = False
             PRIOR[0] = 0
             SHARED[0] = None
+            FLAGTYPE[0] = None
     return None if not p.violations else "; ".join(m for _, m in list(p.violations.values())[:3])
